@@ -502,6 +502,10 @@ def _slice_atom(x, axis, hi):
     """x[:hi] / x[:, :hi] with composition of nested prefix slices and transposes"""
     if x.op == "t":
         return A("t", _slice_atom(x.kids[0], 1 - axis, hi))
+    if x.op == "had" and len(x.kids[0]) == 1:
+        # an elementwise power commutes with taking a prefix: (v ** e)[:k] = v[:k] ** e
+        (f, e), = x.kids[0]
+        return A("had", frozenset([(_slice_atom(f, axis, hi), e)]))
     if x.op == "getitem":
         inner = _prefix_slice(x.kids[1])
         if inner is not None and inner[0] == axis:
